@@ -139,6 +139,7 @@ type c02Ledger struct {
 	irrN                                         float64
 	exemptDays                                   map[int]bool    // further measurement days; days after the annual output date
 	irrNs                                        map[int]float64 // further irrigation days: kg N/ha entering with the water
+	irrPair                                      map[int][]float64 // days with several irrigation events: kg N/ha of each (the model applies one event per day or all of them; the N entering must be the N of the events it applied)
 }
 
 func sumN(v []float64, n int) float64 {
@@ -174,6 +175,28 @@ func (l *c02Ledger) probe() *hermes.VerifProbe {
 			if v, ok := l.irrNs[zeit]; ok {
 				in += v
 				l.interesting = true
+			}
+			if evs, ok := l.irrPair[zeit]; ok {
+				// the N that entered must be the N of a subset of the day's events
+				l.interesting = true
+				got := (l.eC - l.dsC) - in
+				best := math.Inf(1)
+				for m := 0; m < 1<<len(evs); m++ {
+					sum := 0.0
+					for i, v := range evs {
+						if m&(1<<i) != 0 {
+							sum += v
+						}
+					}
+					if d := math.Abs(got - sum); d < best {
+						best = d
+					}
+				}
+				l.c.Eval(1)
+				if best > relTol(l.eC, l.dsC, in, got) {
+					l.c.Violate("surface-input same-day-irrigations", fmt.Sprintf("%s day %d: N-min changed by %.12g kg N/ha beyond deposition through irrigation, the day's events carry %v kg N/ha (no combination of them gives that amount)", l.label, zeit, got, evs), nil)
+				}
+				return
 			}
 			l.c.Eval(1)
 			if d := (l.eC - l.dsC) - in; math.Abs(d) > relTol(l.eC, l.dsC, in) {
@@ -332,6 +355,11 @@ func c02Run(raw json.RawMessage, c *mc.Ctx) {
 		p.Irr = []proj.Irr{{Date: isoAdd(h0, first), MM: 20, NConc: sp.IrrN}}
 		l0.irrDay = proj.ZEIT(proj.D(h0)) + first
 		l0.irrN = sp.IrrN * 20 * 0.01
+		if sp.Base.DrainDep > 0 { // part of the irrigated scenarios: a second line for the same day
+			p.Irr = append(p.Irr, proj.Irr{Date: isoAdd(h0, first), MM: 15, NConc: 30})
+			l0.irrPair = map[int][]float64{l0.irrDay: {l0.irrN, 30 * 15 * 0.01}}
+			l0.irrDay = -1
+		}
 	}
 	if sp.Fert != "" {
 		amt := 80.0
@@ -349,7 +377,7 @@ func c02Run(raw json.RawMessage, c *mc.Ctx) {
 	for _, w := range ws {
 		p.Weather = e1Weather(warm, w, false)
 		writeWeather(root, p)
-		l := &c02Ledger{c: c, measDay: start + 1, label: fmt.Sprintf("word=%v", w), irrDay: l0.irrDay, irrN: l0.irrN, unstableKey: fmt.Sprintf("%s gw=%d drain=%d/%g w=%g n=%g crop=%s fert=%s word=%v", sp.Base.Soil, sp.Base.GW, sp.Base.DrainDep, sp.Base.DrainFrac, sp.Base.InitW, sp.Base.InitN, sp.Base.Crop, sp.Fert, w)}
+		l := &c02Ledger{c: c, measDay: start + 1, label: fmt.Sprintf("word=%v", w), irrDay: l0.irrDay, irrN: l0.irrN, irrPair: l0.irrPair, unstableKey: fmt.Sprintf("%s gw=%d drain=%d/%g w=%g n=%g crop=%s fert=%s word=%v", sp.Base.Soil, sp.Base.GW, sp.Base.DrainDep, sp.Base.DrainFrac, sp.Base.InitW, sp.Base.InitN, sp.Base.Crop, sp.Fert, w)}
 		nv := len(c.Viol)
 		res := proj.Run(root, p.Args(root), l.probe())
 		c.Trace(1)
